@@ -98,7 +98,8 @@ def gen_plan(streams, tier):
             ops.append(op)
         else:
             ops.append({"k": "permutant", "o": o, "reuse_permutants": rnd.random() < 0.7})
-    return {"property": ID, "run_seed": streams.run_seed, "roots": roots, "rng_mode": rng_mode, "clock_mode": clock_mode,
+    noise = rnd.randrange(1 << 30) if rnd.random() < 0.2 else None
+    return {"property": ID, "run_seed": streams.run_seed, "noise": noise, "roots": roots, "rng_mode": rng_mode, "clock_mode": clock_mode,
             "bias": rnd.choice((0.15, 0.35, 0.6)), "ops": ops}
 
 
@@ -262,6 +263,9 @@ def execute(plan, ctx):
     seqmod.time = clock
     seqmod.rng = RngModule(factory)
 
+    if plan.get("noise") is not None:
+        from ..noise import noise_prelude
+        noise_prelude(ctx, plan["noise"])
     live = []          # backend Sequence objects
     depth = []
     recorded = {}
